@@ -230,7 +230,19 @@ type C19Launched struct {
 	DelaysMs []int     `json:"delays_ms,omitempty"`
 }
 
+// C19Across is the "calls that never stop" shape: plugin 0 loses its connection and restarts
+// the same stub (Stop, Start) Rounds times while an updater goroutine of the plugin keeps
+// issuing BgCall every GapUs; after every completed restart (Start returned nil, the plugin
+// is synchronized and listed) Call is issued and must go through.
+type C19Across struct {
+	Rounds int     `json:"rounds"`
+	GapUs  int     `json:"gap_us,omitempty"`
+	Call   C19Call `json:"call"`
+	BgCall C19Call `json:"bg_call"`
+}
+
 type C19Case struct {
+	Across *C19Across `json:"across,omitempty"`
 	// pre-installed plugins (only in cases without restarts: a restart launches them anew)
 	Launched []C19Launched `json:"launched,omitempty"`
 	// the runtime's life cycle before the plan runs: Stop() before the first Start(), and
@@ -427,8 +439,24 @@ func genC19Flood(t *rapid.T) C19Case {
 	return c19Flood(n, byRequest, hold, rapid.SampledFrom([]int32{4, 8, 10, 1, 6, 12}).Draw(t, "event"), idx, calls)
 }
 
+func c19AcrossCase(rounds, gapUs int, idx string, call, bg C19Call, second bool) C19Case {
+	c := C19Case{Across: &C19Across{Rounds: rounds, GapUs: gapUs, Call: call, BgCall: bg}, Plugins: []C19Plugin{{Idx: idx}}}
+	if second {
+		c.Plugins = append(c.Plugins, C19Plugin{Idx: "50"})
+	}
+	return c
+}
+
+func genC19Across(t *rapid.T) C19Case {
+	return c19AcrossCase(rapid.IntRange(10, 20).Draw(t, "rounds"), rapid.SampledFrom([]int{0, 0, 50, 200, 1000}).Draw(t, "gap_us"),
+		fmt.Sprintf("%02d", rapid.IntRange(0, 99).Draw(t, "idx")), genC19Call(false).Draw(t, "call"), genC19Call(false).Draw(t, "bg_call"),
+		rapid.Bool().Draw(t, "second_plugin"))
+}
+
 func genC19(t *rapid.T) C19Case {
 	switch rapid.IntRange(0, 24).Draw(t, "shape") {
+	case 18, 19:
+		return genC19Across(t)
 	case 20:
 		return genC19Flood(t)
 	case 24:
@@ -612,16 +640,24 @@ type c19AbMarks struct {
 	Others      []int64 `json:"others"`
 }
 
+// c19AcrossMarks: round i stopped the stub at StopBegin[i] and was registered again at Ready[i].
+type c19AcrossMarks struct {
+	StopBegin []int64 `json:"stop_begin"`
+	Ready     []int64 `json:"ready"`
+	End       int64   `json:"end"`
+}
+
 type c19Hist struct {
-	LaunchedTrouble string       `json:"launched_trouble,omitempty"`
-	Abandon         *c19AbMarks  `json:"abandon,omitempty"`
-	FailedStarts    []c19FS      `json:"failed_starts,omitempty"`
-	Plugins         []*c19Reg    `json:"plugins"`
-	Seen            []c19Seen    `json:"update_fn_calls"`
-	Issued          []*c19Issued `json:"issued"`
-	Requests        []c19Span    `json:"requests"`
-	Overlaps        []string     `json:"overlaps,omitempty"`
-	Handlers        int          `json:"handler_invocations"`
+	Across          *c19AcrossMarks `json:"across,omitempty"`
+	LaunchedTrouble string          `json:"launched_trouble,omitempty"`
+	Abandon         *c19AbMarks     `json:"abandon,omitempty"`
+	FailedStarts    []c19FS         `json:"failed_starts,omitempty"`
+	Plugins         []*c19Reg       `json:"plugins"`
+	Seen            []c19Seen       `json:"update_fn_calls"`
+	Issued          []*c19Issued    `json:"issued"`
+	Requests        []c19Span       `json:"requests"`
+	Overlaps        []string        `json:"overlaps,omitempty"`
+	Handlers        int             `json:"handler_invocations"`
 }
 
 var c19CaseCtr atomic.Int64
@@ -639,6 +675,7 @@ type c19Exec struct {
 	spans           []c19Span
 	overlaps        []string
 	inUpdate        int
+	acMarks         *c19AcrossMarks
 	probeTag        string
 	probeHits       int
 	fstarts         []c19FS
@@ -736,14 +773,16 @@ const (
 	kFailedStart = "failedstart"
 	kAbandoned   = "abandoned"
 	kLaunched    = "launched"
+	kAcross      = "across"
 )
 
 // c19Live is a connected plugin.
 type c19Live struct {
-	spec C19Plugin
-	reg  *c19Reg
-	p    *fx.Plugin
-	ok   bool
+	spec   C19Plugin
+	reg    *c19Reg
+	p      *fx.Plugin
+	ok     bool
+	synced chan struct{}
 }
 
 func (x *c19Exec) newPlugin(i int, spec C19Plugin) (*c19Live, chan struct{}, chan struct{}) {
@@ -809,6 +848,7 @@ func (x *c19Exec) newPlugin(i int, spec C19Plugin) (*c19Live, chan struct{}, cha
 
 func (x *c19Exec) connect(i int, spec C19Plugin) *c19Live {
 	l, synced, closed := x.newPlugin(i, spec)
+	l.synced = synced
 	cn := connectAndWait(x.rt, l.p, synced, closed, false)
 	l.reg.StartErr, l.reg.Refused, l.reg.TimedOut = shortErr(cn.startErr), cn.refused, cn.timedOut
 	l.ok = cn.startErr == nil && !cn.refused && !cn.timedOut
@@ -1209,6 +1249,75 @@ func runC19Once(c C19Case) (ev.Outcome, int) {
 			}
 		}()
 	}
+	if ac := c.Across; ac != nil && !broken {
+		l := live[earlyIdx[0]]
+		rounds := ac.Rounds
+		if rounds < 1 {
+			rounds = 1
+		}
+		if rounds > 30 {
+			rounds = 30
+		}
+		marks := &c19AcrossMarks{}
+		x.acMarks = marks
+		stopBg := make(chan struct{})
+		wg.Add(2)
+		go func() { // the plugin's updater goroutine: it never stops updating
+			defer wg.Done()
+			<-start
+			for i := 0; i < 400; i++ {
+				select {
+				case <-stopBg:
+					return
+				default:
+				}
+				x.issue(l.p.Stub, l.p.Name, kAcross, fmt.Sprintf("v%d", i), ac.BgCall, false)
+				if ac.GapUs > 0 && ac.GapUs <= 100000 {
+					time.Sleep(time.Duration(ac.GapUs) * time.Microsecond)
+				}
+			}
+		}()
+		go func() { // the plugin loses its connection and restarts its stub, again and again
+			defer wg.Done()
+			defer close(stopBg)
+			<-start
+			for r := 0; r < rounds; r++ {
+				for len(l.synced) > 0 {
+					<-l.synced
+				}
+				sb := x.ctr.Add(1)
+				l.p.Stub.Stop()
+				if err := l.p.Stub.Start(context.Background()); err != nil {
+					x.mu.Lock()
+					x.launchedTrouble = "restart of the stub failed: " + shortErr(err)
+					x.mu.Unlock()
+					return
+				}
+				select {
+				case <-l.synced:
+				case <-time.After(20 * time.Second):
+					x.mu.Lock()
+					x.launchedTrouble = "restarted stub was not synchronized"
+					x.mu.Unlock()
+					return
+				}
+				b := rt.A.BlockPluginSync()
+				b.Unblock()
+				x.mu.Lock()
+				marks.StopBegin = append(marks.StopBegin, sb)
+				marks.Ready = append(marks.Ready, x.ctr.Add(1))
+				x.mu.Unlock()
+				// the restarted plugin is registered: its update must go through
+				x.issue(l.p.Stub, l.p.Name, kUpdater, fmt.Sprintf("t%d", r), ac.Call, false)
+				if ac.GapUs > 0 && ac.GapUs <= 100000 {
+					time.Sleep(time.Duration(ac.GapUs) * time.Microsecond)
+				}
+			}
+			x.mu.Lock()
+			marks.End = x.ctr.Add(1)
+			x.mu.Unlock()
+		}()
+	}
 	if ab := c.Abandon; ab != nil && !broken && len(earlyIdx) >= 3 {
 		holder, a, others := live[earlyIdx[0]], live[earlyIdx[1]], earlyIdx[2:]
 		marks := &c19AbMarks{Others: make([]int64, len(ab.Others))}
@@ -1397,7 +1506,26 @@ func runC19Once(c C19Case) (ev.Outcome, int) {
 	rt.Stop()
 
 	x.mu.Lock()
-	h := &c19Hist{LaunchedTrouble: x.launchedTrouble, FailedStarts: x.fstarts, Abandon: x.abMarks, Seen: x.seen, Issued: x.issued, Requests: x.spans, Overlaps: x.overlaps, Handlers: x.handlers}
+	if m := x.acMarks; m != nil {
+		// an updater call that began after a restart had completed and ended before the next
+		// loss of the connection is an ordinary update of a registered plugin
+		for _, is := range x.issued {
+			if is.Kind != kAcross || is.Blocked {
+				continue
+			}
+			for i, ready := range m.Ready {
+				next := m.End
+				if i+1 < len(m.StopBegin) {
+					next = m.StopBegin[i+1]
+				}
+				if next != 0 && ready < is.Start && is.End < next {
+					is.Kind = kUpdater
+					is.Mode = "between-restarts"
+				}
+			}
+		}
+	}
+	h := &c19Hist{Across: x.acMarks, LaunchedTrouble: x.launchedTrouble, FailedStarts: x.fstarts, Abandon: x.abMarks, Seen: x.seen, Issued: x.issued, Requests: x.spans, Overlaps: x.overlaps, Handlers: x.handlers}
 	x.mu.Unlock()
 	for _, l := range live {
 		if l != nil {
@@ -1430,6 +1558,7 @@ var c19KindText = map[string]string{
 	kAfterStop:   "after Stop() returned",
 	kUnstarted:   "on a never-started stub",
 	kFailedStart: "on a stub whose Start() had failed",
+	kAcross:      "by the plugin's updater goroutine while the plugin was losing its connection and restarting its stub",
 	kLaunched:    "by a pre-installed plugin (launched by the runtime) from its main goroutine",
 	kAbandoned:   "while the runtime was occupied, the plugin being stopped while the call was queued",
 }
@@ -1557,7 +1686,7 @@ func judgeC19(c C19Case, h *c19Hist) (ev.Outcome, int) {
 				return fail(atOnce, "UpdateContainers on a stub whose Start() had failed (%s) returned a failed list %v", is.Mode, is.FailedIDs)
 			}
 			continue
-		case kRaceStop, kAfterStop, kAbandoned:
+		case kRaceStop, kAfterStop, kAbandoned, kAcross:
 			// the session is going or gone: the call must come back (checked above); it may
 			// have been delivered or not, but not twice, and a success must be a real one
 			classes[is.Kind] = true
@@ -1648,6 +1777,20 @@ func judgeC19(c C19Case, h *c19Hist) (ev.Outcome, int) {
 		classes["runtime-restarted"] = true
 		if c.RestartSessions {
 			classes["runtime-restarted-between-sessions"] = true
+		}
+	}
+	if m := h.Across; m != nil {
+		classes["across-shape"] = true
+		if len(m.Ready) >= 10 {
+			classes["across:10+restarts"] = true
+		}
+		for _, is := range h.Issued {
+			if is.Mode == "between-restarts" {
+				classes["across:updater-call-between-restarts"] = true
+			}
+			if is.Kind == kAcross && is.err != nil {
+				classes["across:updater-call-failed-during-restart"] = true
+			}
 		}
 	}
 	if m := h.Abandon; m != nil {
@@ -1784,6 +1927,18 @@ func TestExh_C19(t *testing.T) {
 		{Updates: []C19Upd{{ID: "a"}, {ID: "b", Ignore: true}}, Fail: []int{1}},
 		{Updates: []C19Upd{{ID: "c", NoLinux: true}}},
 		{Updates: []C19Upd{{ID: "d"}, {ID: "e"}, {ID: "f"}}, Err: "not enough exclusive CPUs", ErrForm: "status", ErrCode: 8},
+	}
+	for i, gap := range []int{0, 100, 1000} {
+		c := c19AcrossCase(20, gap, "10", calls[0], calls[i%len(calls)], i == 1)
+		raw := ev.Snapshot(c)
+		r.Journal(raw)
+		o := runC19(c)
+		r.ClearJournal()
+		o.Classes = append([]string{"across-sweep"}, o.Classes...)
+		r.Record(raw, o)
+		if o.Fail != "" {
+			t.Fatalf("C19 across sweep (gap %d us): %s", gap, o.Fail)
+		}
 	}
 	for _, n := range []int{17, 24, 40} {
 		for _, byRequest := range []bool{true, false} {
